@@ -18,9 +18,27 @@ pub struct GenCfg {
     pub repeat_in_edge: usize,
     /// chance (per mille) of a zero-arity side
     pub zero_arity: usize,
+    /// this run draws unusually large diagrams
+    pub large: bool,
 }
 
 pub fn draw_cfg(r: &mut Rng, tier: Tier) -> GenCfg {
+    // unusually large workloads at a low rate (bugs that need a size threshold to manifest)
+    let large = if tier == Tier::Thorough { r.chance(1, 25) } else { r.chance(1, 120) };
+    if large {
+        return GenCfg {
+            max_extra_nodes: r.range(12, 48),
+            max_edges: r.range(4, 20),
+            max_arity: r.range(1, 6),
+            node_labels: r.range(2, 6),
+            edge_labels: r.range(1, 5),
+            max_iface: r.range(2, 12),
+            reuse_boundary: *r.pick(&[0, 150, 400]),
+            repeat_in_edge: *r.pick(&[0, 100, 400]),
+            zero_arity: *r.pick(&[0, 100]),
+            large: true,
+        };
+    }
     let big = tier == Tier::Thorough && r.chance(1, 4);
     GenCfg {
         max_extra_nodes: if big { r.range(0, 9) } else { r.range(0, 5) },
@@ -32,6 +50,7 @@ pub fn draw_cfg(r: &mut Rng, tier: Tier) -> GenCfg {
         reuse_boundary: *r.pick(&[0, 150, 400, 800]),
         repeat_in_edge: *r.pick(&[0, 100, 400]),
         zero_arity: *r.pick(&[0, 100, 300]),
+        large: false,
     }
 }
 
@@ -154,11 +173,37 @@ pub fn gen_collapsing(r: &mut Rng, ty_in: &[L]) -> Plain {
     Plain { w: labels, e: vec![], s, t }
 }
 
-/// composable pair with occasional collapsing right operand
+/// A discrete diagram whose two legs are the *same* endofunction on its node list (as many
+/// ports as nodes), mostly not injective: looks like an identity, is not one.
+pub fn gen_endo_spider(r: &mut Rng, ty_in: &[L]) -> Plain {
+    let n = ty_in.len();
+    let s: Vec<usize> = (0..n)
+        .map(|i| {
+            let same: Vec<usize> = (0..n).filter(|j| ty_in[*j] == ty_in[i]).collect();
+            if r.chance(1, 3) {
+                i
+            } else {
+                *r.pick(&same)
+            }
+        })
+        .collect();
+    Plain { w: ty_in.to_vec(), e: vec![], s: s.clone(), t: s }
+}
+
+/// composable pair with occasional collapsing / identity-looking right operand
 pub fn gen_pair(r: &mut Rng, c: &GenCfg) -> (Plain, Plain) {
-    let f = gen_plain(r, c, None);
+    let f = if r.chance(1, 24) {
+        let ty = gen_type(r, c);
+        gen_endo_spider(r, &ty)
+    } else {
+        gen_plain(r, c, None)
+    };
     let ty = f.tgt_type();
-    let g = if r.chance(1, 12) { gen_collapsing(r, &ty) } else { gen_plain(r, c, Some(&ty)) };
+    let g = match r.below(24) {
+        0 | 1 => gen_collapsing(r, &ty),
+        2 | 3 => gen_endo_spider(r, &ty),
+        _ => gen_plain(r, c, Some(&ty)),
+    };
     (f, g)
 }
 
